@@ -67,7 +67,7 @@ func init() {
 
 func c06Insts() []Inst {
 	var out []Inst
-	for k1 := int64(0); k1 <= 1; k1++ {
+	for k1 := int64(0); k1 <= 2; k1++ {
 		for k2 := int64(0); k2 <= 2; k2++ {
 			for o := int64(0); o <= 1; o++ {
 				out = append(out, inst("gateway", "VH_C06_gw", k1, k2, o))
@@ -90,7 +90,7 @@ func init() {
 		Asserts: []string{"C06.gw_client_exchange_acknowledged", "C06.gw_broker_exchange_continues", "C06.cl_gateway_publish_gets_pubrec", "C06.cl_api_call_completes", "C06.cl_gateway_exchange_completes", "C06.cl_gateway_message_delivered_once"},
 		Reach:   []string{"C06.gw_done", "C06.cl_done"},
 		Bounds: map[string]string{
-			"gateway": "client-initiated PUBLISH QoS 1 / SUBSCRIBE with message ID m1 and broker-initiated PUBLISH QoS 1 / QoS 2 / QoS 1 on a new topic (REGISTER) with message ID m2, m1 and m2 symbolic and unconstrained, both start orders; then each side's acknowledgement",
+			"gateway": "client-initiated PUBLISH QoS 1 / SUBSCRIBE / PUBLISH QoS 2 with message ID m1 and broker-initiated PUBLISH QoS 1 / QoS 2 / QoS 1 on a new topic (REGISTER) with message ID m2, m1 and m2 symbolic and unconstrained, both start orders; then each side's acknowledgement",
 			"client":  "API call in flight (Publish QoS 1/2, Subscribe, Register, Unsubscribe; message ID from the client's sequence in a symbolic state) and a QoS 2 PUBLISH from the gateway with symbolic message ID, both orders; then the acknowledgements and the PUBREL",
 		},
 		Outside: []string{"three or more overlapping exchanges", "expiry of a third exchange with the same ID"},
